@@ -1,0 +1,71 @@
+//go:build verif
+
+package harfbuzz
+
+// Verification hooks (build tag verif): access to the in/out buffer protocol
+// used by the substitution passes, so that operation sequences generated from
+// a specification can be replayed on the real buffer and its state observed.
+
+// VerifGlyph is the projection of a GlyphInfo observed by the replay.
+type VerifGlyph struct {
+	G  int  `json:"g"`
+	Cl int  `json:"cl"`
+	Fl bool `json:"fl"` // GlyphUnsafeToBreak
+}
+
+func verifProject(infos []GlyphInfo) []VerifGlyph {
+	out := make([]VerifGlyph, len(infos))
+	for i, in := range infos {
+		out[i] = VerifGlyph{G: int(in.Glyph), Cl: in.Cluster, Fl: in.Mask&GlyphUnsafeToBreak != 0}
+	}
+	return out
+}
+
+// VerifState returns the input side, the output side (empty without output), the cursor and the output flag.
+func (b *Buffer) VerifState() (info, out []VerifGlyph, idx int, have bool) {
+	if b.haveOutput {
+		out = verifProject(b.outInfo)
+	} else {
+		out = []VerifGlyph{}
+	}
+	return verifProject(b.Info), out, b.idx, b.haveOutput
+}
+
+// VerifSetGlyph sets the glyph of the i-th input item.
+func (b *Buffer) VerifSetGlyph(i int, g GID) { b.Info[i].Glyph = g }
+
+// VerifOp applies one primitive buffer operation.
+func (b *Buffer) VerifOp(op string, x, y int) {
+	switch op {
+	case "clearOutput":
+		b.clearOutput()
+	case "next":
+		b.nextGlyph()
+	case "skip":
+		b.skipGlyph()
+	case "copy":
+		b.copyGlyph()
+	case "replaceIndex":
+		b.replaceGlyphIndex(GID(x))
+	case "replaceGlyphs": // x glyphs in, two glyphs out: y, y+1
+		b.replaceGlyphs(x, nil, []GID{GID(y), GID(y + 1)})
+	case "delete":
+		b.deleteGlyph()
+	case "merge":
+		b.mergeClusters(x, y)
+	case "mergeOut":
+		b.mergeOutClusters(x, y)
+	case "flag":
+		b.unsafeToBreak(x, y)
+	case "flagOut":
+		b.unsafeToBreakFromOutbuffer(x, y)
+	case "moveTo":
+		b.moveTo(x)
+	case "swap":
+		b.swapBuffers()
+	case "reverse":
+		b.Reverse()
+	default:
+		panic("unknown verification op " + op)
+	}
+}
